@@ -295,6 +295,53 @@ Section WithHash.
     end.
 End WithHash.
 
+(* ---- vocabulary of the frame / history theorems ---- *)
+Definition has_entry (k : pystr) (v : pyval) (d : record) : bool :=
+  existsb (fun kv => str_eqb (fst kv) k && pyval_eqb (snd kv) v) d.
+
+(* does the operation carry the state value s (as its explicit state argument or as a state parameter) *)
+Definition op_mentions (o : op) (s : pystr) : bool :=
+  match o with
+  | OBegin _ st _ _ => str_eqb st s
+  | OAuthz _ r _ => has_entry (PS "state") (VStr s) (r_params r)
+  | OToken _ st _ _ => str_eqb st s
+  | OUserinfo _ st _ => str_eqb st s
+  | ORoutedToken st _ _ => str_eqb st s
+  end.
+
+(* can the operation (re)bind the key k of a client's key -> state map: a new flow drawing k as its nonce,
+   or a token response whose ID token names k as its subject *)
+Definition op_may_bind (o : op) (k : pystr) : bool :=
+  match o with
+  | OBegin _ _ nonce _ => str_eqb nonce k
+  | OToken _ _ r _ | ORoutedToken _ r _ =>
+      match r_idt r with
+      | Some t => has_entry (PS "sub") (VStr k) (t_claims t)
+      | None => false
+      end
+  | _ => false
+  end.
+
+(* the client an operation is executed on *)
+Definition op_target (w : list (pystr * client)) (o : op) : option pystr :=
+  match o with
+  | OBegin i _ _ _ | OAuthz i _ _ | OToken i _ _ _ | OUserinfo i _ _ => Some i
+  | ORoutedToken st _ _ => match state2issuer w st with Some (VStr i) => Some i | _ => None end
+  end.
+
+Definition rec_of (w : list (pystr * client)) (j s : pystr) : option record :=
+  match assoc j w with Some c => assoc s (cl_db c) | None => None end.
+Definition map_of (w : list (pystr * client)) (j k : pystr) : option pystr :=
+  match assoc j w with Some c => assoc k (cl_map c) | None => None end.
+
+(* the (issuer, state) pairs this relying party issued in a history *)
+Fixpoint issued (ops : list op) : list (pystr * pystr) :=
+  match ops with
+  | [] => []
+  | OBegin i st _ _ :: r => (i, st) :: issued r
+  | _ :: r => issued r
+  end.
+
 (* ---- comparison helpers for generated case files ---- *)
 Definition db_snapshot := list (pystr * record).
 Definition db_eqb (a b : list (pystr * record)) : bool :=
